@@ -274,7 +274,11 @@ func (e *Exec) execInstr(ins ssa.Instruction) {
 	case *ssa.RunDefers:
 		e.runDefers()
 	case *ssa.Go:
-		unsupportedf("go statement")
+		// A function under contract that starts a goroutine is no longer one sequential step: reported as a failed
+		// obligation (none of the functions under contract does this on the unchanged tree), and the caller goes on
+		// against the weakest contract for whatever the goroutine may do.
+		e.oblige("nogo", "", "go statement: the function starts a goroutine, so what it promises about state no longer describes one sequential step", nil, "", "false")
+		e.applyContract(e.unknownExtern("go statement"), nil, types.NewSignatureType(nil, nil, nil, nil, nil, false), nil, "", "")
 	case *ssa.Select:
 		e.selectInstr(ins)
 	case *ssa.Send:
